@@ -5,6 +5,7 @@ from . import _rows
 
 PROP = "C02"
 LEVEL = "exploration"
+ANCHORS = ["_solv_pwr_loss", "_get_eff", "System.solve"]  # functions whose reached lines are reported in the evidence
 RULE = (
     "cases = random SystemSpecs as in C01 with thermal resistances on most components, loads-as-loss, no-load "
     "converters, sleeping elements, random ambient -60..125 degC, with/without phases; every row of every "
